@@ -16,6 +16,8 @@ pub enum JOp {
     Stats(bool),
     Rounds(u8),
     TestTimer,
+    /// continue on a clone (shares the timer; never inherits a pending half)
+    Clone,
 }
 
 #[derive(Clone, Debug, Serialize, Deserialize)]
@@ -77,7 +79,14 @@ pub fn check(c: &Case) -> CheckResult {
                 let _ = m.test_timer();
                 (String::new(), true)
             }
+            JOp::Clone => {
+                m.half = false;
+                (String::new(), true)
+            }
         };
+        if matches!(op, JOp::Clone) {
+            g = g.clone_box();
+        }
         let got = catch(|| {
             let j = &mut *g;
             match op {
@@ -98,6 +107,7 @@ pub fn check(c: &Case) -> CheckResult {
                     let _ = j.jitter().unwrap().test_timer();
                     String::new()
                 }
+                JOp::Clone => String::new(),
             }
         });
         let got = match got {
@@ -142,7 +152,7 @@ pub fn check(c: &Case) -> CheckResult {
 }
 
 pub fn strategy(max_ops: usize) -> BoxedStrategy<Case> {
-    let ops = proptest::collection::vec(prop_oneof![30 => jop(40), 1 => Just(JOp::TestTimer)], 0..=max_ops);
+    let ops = proptest::collection::vec(prop_oneof![30 => jop(40), 1 => Just(JOp::TestTimer), 2 => Just(JOp::Clone)], 0..=max_ops);
     (gens::timer_prog(true, 14), proptest::option::weighted(0.85, gens::jitter_rounds()), ops)
         .prop_map(|(prog, rounds0, ops)| Case { prog, rounds0, ops })
         .boxed()
@@ -154,6 +164,10 @@ pub fn def(ctx: &Ctx) -> PropDef {
     let max_ops = t.pick(14, 40);
     for part in 0..8 {
         subs.push(PSub::boxed(format!("history/{}", part), t.pick(500, 40_000), move || strategy(max_ops), check));
+    }
+    if ctx.tier == crate::engine::Tier::Thorough {
+        subs.push(crate::props::fuzzsub::FuzzSub::boxed("fz_jitter", "C12", 150000, false));
+        subs.push(crate::props::fuzzsub::FuzzSub::boxed("fz_jitter", "C12", 150000, true));
     }
     PropDef {
         id: "C12",
